@@ -21,6 +21,10 @@ def text_of(x):
     return ('-' if x['neg'] else '') + i + ('.' + f if f else '')
 
 
+def sig_digits(text):
+    return len(text.replace('-', '').replace('.', '').lstrip('0')) or 1
+
+
 def exact_of(stored, scale):
     d = Decimal(''.join(str(k) for k in stored['digits']) or '0').scaleb(-scale)
     return -d if stored['neg'] else d
@@ -38,11 +42,14 @@ def child():
                 os.environ.pop(k, None)
             else:
                 os.environ[k] = v
+        fl = step.get('form') == 'df-float'        # the same numbers as a float64 DataFrame column instead of CSV text
+        form = 'df' if fl else 'csv'
         if step['kind'] == 'values':
-            r = bulk.run_tables({'script': 'R := DS_1;', 'structures': [st1], 'form': 'csv', 'tables': {'DS_1': {'cols': ['Id_1', 'Me_1'], 'rows': step['rows']}}})
+            r = bulk.run_tables({'script': 'R := DS_1;', 'structures': [st1], 'form': form,
+                                 'tables': {'DS_1': {'cols': ['Id_1', 'Me_1'], 'rows': step['rows'], 'floatcols': ['Me_1'] if fl else []}}})
         elif step['kind'] == 'sums':
-            r = bulk.run_tables({'script': 'R := DS_P[calc s := Me_a + Me_b, d := Me_a - Me_b];', 'structures': [stp], 'form': 'csv',
-                                 'tables': {'DS_P': {'cols': ['Id_1', 'Me_a', 'Me_b'], 'rows': step['rows']}}})
+            r = bulk.run_tables({'script': 'R := DS_P[calc s := Me_a + Me_b, d := Me_a - Me_b];', 'structures': [stp], 'form': form,
+                                 'tables': {'DS_P': {'cols': ['Id_1', 'Me_a', 'Me_b'], 'rows': step['rows'], 'floatcols': ['Me_a', 'Me_b'] if fl else []}}})
         else:
             raise ValueError(step['kind'])
         if 'results' in r:
@@ -110,6 +117,11 @@ def main(chk):
             bad = [p for p in e['probes'] if p['stored']['digits'] == [-1]]
             steps.append({'kind': 'values', 'env': envof(w, s), 'rows': [[k, text_of(p['x'])] for k, p in enumerate(good)]})
             plan = [('good', good)]
+            # the same values as a float64 column (those a double represents: at most 15 significant digits)
+            g15 = [p for p in good if sig_digits(text_of(p['x'])) <= 15]
+            if g15:
+                steps.append({'kind': 'values', 'form': 'df-float', 'rows': [[k, text_of(p['x'])] for k, p in enumerate(g15)]})
+                plan.append(('good float64', g15))
             for p in bad:
                 steps.append({'kind': 'values', 'rows': [[0, text_of(p['x'])]]})
                 plan.append(('bad', p))
@@ -118,6 +130,10 @@ def main(chk):
             if sums:
                 steps.append({'kind': 'sums', 'rows': [[k, text_of(byid[x['a']]['x']), text_of(byid[x['b']]['x'])] for k, x in enumerate(sums)]})
                 plan.append(('sums', sums))
+                s15 = [x for x in sums if sig_digits(text_of(byid[x['a']]['x'])) <= 15 and sig_digits(text_of(byid[x['b']]['x'])) <= 15]
+                if s15:
+                    steps.append({'kind': 'sums', 'form': 'df-float', 'rows': [[k, text_of(byid[x['a']]['x']), text_of(byid[x['b']]['x'])] for k, x in enumerate(s15)]})
+                    plan.append(('sums float64', s15))
         args.append({'steps': steps})
         meta.append(((w, s), e, plan))
     # history: an accepted non-default setting, then the variables removed again -> the documented defaults apply
@@ -140,6 +156,8 @@ def main(chk):
         es = e.get('es')
         for (kind, data), res in zip(plan, o + [{'err': 'RAW:missing-step', 'msg': ''}] * (len(plan) - len(o))):
             chk.add('evaluations')
+            form = ' float64' if kind.endswith(' float64') else ''
+            kind = kind.split(' ')[0]
             if kind == 'skip':
                 continue
             raw = 'err' in res and res['err'].startswith('RAW')
@@ -168,7 +186,7 @@ def main(chk):
                     distinct.add(('unfit', data['id'], ws))
                 continue
             if 'err' in res:
-                chk.violation('%s | documented setting rejected (%s) | %s' % ('raw' if raw else 'error', kind, name),
+                chk.violation('%s | documented setting rejected (%s%s) | %s' % ('raw' if raw else 'error', kind, form, name),
                               'setting %s is inside the documented range; run() raised %s %s %s' % (name, res['err'], res.get('code'), res['msg'][:200]), {})
                 continue
             c = {n: k for k, n in enumerate(res['cols'])}
@@ -178,7 +196,7 @@ def main(chk):
                     want = exact_of(p['stored'], es)
                     g = got.get(k)
                     if g is None or not close(Decimal(g), want):
-                        chk.violation('stored value %s | %s' % (p['id'], name if hist_case else 'scale=%s' % es), 'setting %s: input %s must be stored as %s, engine returned %s' % (name, text_of(p['x']), want, g), {'input': text_of(p['x'])})
+                        chk.violation('stored value %s%s | %s' % (p['id'], form, name if hist_case else 'scale=%s' % es), 'setting %s: input %s must be stored as %s, engine returned %s' % (name, text_of(p['x']), want, g), {'input': text_of(p['x'])})
                     else:
                         chk.add('traces_validated_against_impl')
                         distinct.add(('stored', p['id'], ws))
@@ -188,7 +206,7 @@ def main(chk):
                     ws_ = exact_of(x['sum'], es)
                     wd = exact_of(x['diff'], es)
                     if not row or not close(Decimal(row[0][c['s']]), ws_) or not close(Decimal(row[0][c['d']]), wd):
-                        chk.violation('sum/difference %s%s | scale=%s' % (x['a'], x['b'], es), 'setting %s: %s +/- %s must be %s / %s exactly at scale %s, engine %s' %
+                        chk.violation('sum/difference %s%s%s | scale=%s' % (x['a'], x['b'], form, es), 'setting %s: %s +/- %s must be %s / %s exactly at scale %s, engine %s' %
                                       (name, x['a'], x['b'], ws_, wd, es, row[0] if row else None), {})
                     else:
                         chk.add('traces_validated_against_impl')
